@@ -323,7 +323,11 @@ func TestCheckMatching(t *testing.T) {
 		c.Jobs = []int{0, 1, 2, 3, 8, 16}
 		c.Warm = rapid.Bool().Draw(rt, "warm")
 		s.Crumb(c)
+		// the quantifier names GOMAXPROCS in {1,2,16}: Jobs above GOMAXPROCS matters too
+		gmp := rapid.SampledFrom([]int{1, 2, 16}).Draw(rt, "gomaxprocs")
+		old := runtime.GOMAXPROCS(gmp)
 		fl, inf := check(c)
+		runtime.GOMAXPROCS(old)
 		var cls []string
 		if inf.ties {
 			cls = append(cls, "ties")
@@ -337,6 +341,7 @@ func TestCheckMatching(t *testing.T) {
 		if inf.twoSided > 0 {
 			cls = append(cls, "two-sided-result")
 		}
+		cls = append(cls, fmt.Sprintf("gomaxprocs=%d", gmp))
 		s.Eval(harness.JSON(c), inf.nontriv, cls...)
 		if inf.nontriv {
 			s.MaybeSample(c)
